@@ -236,6 +236,9 @@ def new_cache_files(root: Path, since: float):
     return out
 
 
+LINKER_TOOL = None
+
+
 def one_build(root: Path, name: str, idx: int, flags, env, prog, pflag, rng_seed, half_warm, fraction=0.5):
     """An independent cold build in its own sandbox; optionally followed by a half-warm rebuild.
     Returns a list of dict(label, sha, rc, stderr, sb_root, src, flags, env)."""
@@ -247,6 +250,10 @@ def one_build(root: Path, name: str, idx: int, flags, env, prog, pflag, rng_seed
     write_module(src, program(prog), module=MOD)
     t0 = time.time() - 1
     sb = Sandbox(base / "sb", template=True, tmpdir=base / f"tmp-{idx}-{rng.randrange(10**6)}")
+    if LINKER_TOOL is not None and not (name == "default" and idx == 0):
+        # all but one build start from an already patched linker (it is not part of the output;
+        # the remaining build patches and builds its own, which covers that path)
+        copytree(LINKER_TOOL, sb.gcache / "tool")
     res = []
     exe = base / "prog.bin"
     r = sb.garble(list(flags) + ["build", f"-p={pflag}", "-o", str(exe), "."], cwd=src, env=env, timeout=2400)
@@ -452,7 +459,7 @@ def main(tier, seed):
     if tier == "thorough":
         r3 = tlc_must_pass("Determinism", "Determinism-thorough.cfg", workdir=mkscratch("c03-tlc3"), workers=2, timeout=600)
         chk.add_tlc(r3)
-        for wi in ("clock", "reflmap"):
+        for wi in ("clock", "reflmap", "prefix"):
             rw = tlc("Determinism", f"Determinism-whatif-{wi}.cfg", workdir=mkscratch("c03-tlcw"), workers=2, timeout=600)
             chk.add_tlc(rw)
             chk.extra.setdefault("whatif_models_violated", {})[wi] = rw.violated
@@ -465,9 +472,14 @@ def main(tier, seed):
     # ------------------------------------------------------------------ the real builds
     build_garble("verif")
     template_gocache()
+    global LINKER_TOOL
+    import proto_common
+    LINKER_TOOL = proto_common.make_linker_cache(root)
     tasks = []
     for (name, flags, env, prog) in configs(tier):
         for idx, pflag in enumerate((1, 4, 16)):
+            if tier == "quick" and idx == 1 and name not in ("default", "ctrlflow"):
+                continue        # quick: two independent cold builds (-p 1, -p 16 + half-warm rebuild) per configuration
             tasks.append((name, flags, env, prog, idx, pflag, rng.randrange(10**9), idx == 2))
     results = {}
     workers = 6 if tier == "quick" else 8
